@@ -507,9 +507,10 @@ func (s *rs_sim) persist(r *rs_rep, part string) {
 		if part == "all" || part == "hs" {
 			if !raft.IsEmptyHardState(rd.HardState) {
 				r.st.SetHardState(rd.HardState)
-				if rd.MustSync {
-					r.syncedHS = rd.HardState
-				}
+			}
+			if rd.MustSync {
+				// a synchronous WAL write makes everything written so far durable
+				r.syncedHS, _, _ = r.st.InitialState()
 			}
 			r.pHS = true
 		}
@@ -728,6 +729,7 @@ func (s *rs_sim) snapshot(r *rs_rep) {
 		return
 	}
 	s.inc("snapshots_taken")
+	r.syncedHS, _, _ = r.st.InitialState() // saving a snapshot syncs the WAL
 	js := rs_jsnap{Idx: r.appIdx, Term: r.appTerm, Voters: rs_nz(append([]uint64{}, cs.Nodes...)), Learners: rs_nz(append([]uint64{}, cs.Learners...))}
 	sort.Slice(js.Voters, func(a, b int) bool { return js.Voters[a] < js.Voters[b] })
 	sort.Slice(js.Learners, func(a, b int) bool { return js.Learners[a] < js.Learners[b] })
